@@ -208,10 +208,21 @@ def strongly_connected(m):
 # --------------------------------------------------------------- vertices
 
 class VObj(object):
-    """A vertex object hashed by identity."""
+    """A vertex object compared by identity.  Its hash is derived from the
+    name (not the address) so that set/dict orders inside rig, and therefore
+    replays, do not vary from run to run."""
 
     def __init__(self, name):
         self.name = name
+
+    def __hash__(self):
+        return hash(("VObj", self.name))
+
+    def __eq__(self, other):
+        return self is other
+
+    def __ne__(self, other):
+        return self is not other
 
     def __repr__(self):
         return "VObj(%s)" % self.name
